@@ -86,6 +86,9 @@ func (c10) Run(seed int64, tier string, idx int) Outcome {
 	if idx%4 == 1 {
 		parts.Epilogue = ""
 	}
+	if idx%3 != 0 {
+		parts.Prologue2 = "var second = 2 // second block; 第二"
+	}
 	o := Outcome{Status: "held"}
 	var canon *extraction
 	nr := c10{}.renderings(tier)
@@ -240,8 +243,12 @@ func extractAndCompare(g *spec.Grammar, parts render.Parts, actions []string, b 
 	for _, sy := range G.Symbols {
 		ex.symbols[sy.Name] = fmt.Sprintf("%d/%s/%d/%d", sy.Value, sy.Tag, sy.Prec, sy.PrecType)
 	}
-	if got := b.Root.GetCode(); strings.TrimSpace(got) != strings.TrimSpace(parts.Prologue) || !strings.Contains(got, parts.Prologue) {
-		return nil, fmt.Sprintf("prologue extracted as %q", got)
+	wantCode := "\n" + parts.Prologue + "\n"
+	if parts.Prologue2 != "" {
+		wantCode += "\n" + parts.Prologue2 + "\n"
+	}
+	if got := b.Root.GetCode(); got != wantCode {
+		return nil, fmt.Sprintf("prologue blocks extracted as %q, file has %q", got, wantCode)
 	}
 	if got := b.Root.GetUion(); got != parts.Union {
 		return nil, fmt.Sprintf("%%union body extracted as %q, file has %q", got, parts.Union)
@@ -306,8 +313,12 @@ func checkGeneratedFile(g *spec.Grammar, parts render.Parts, actions []string, t
 		if !strings.HasSuffix(out, parts.Epilogue) {
 			return fmt.Sprintf("%s output does not end with the epilogue (tail %q)", lang, trunc(out[max(0, len(out)-120):], 120))
 		}
-		if !strings.Contains(out, parts.Prologue) {
-			return lang + " output does not contain the prologue verbatim"
+		wantCode := "\n" + parts.Prologue + "\n"
+		if parts.Prologue2 != "" {
+			wantCode += "\n" + parts.Prologue2 + "\n"
+		}
+		if !strings.Contains(out, wantCode) {
+			return lang + " output does not contain the prologue block(s) verbatim"
 		}
 		if !strings.Contains(out, parts.Union) {
 			return lang + " output does not contain the %union body verbatim"
